@@ -214,7 +214,7 @@ fn cmd_migration_runs(m: &HashMap<String, String>) -> i32 {
     let out = m.get("out").expect("--out");
     let f = std::fs::File::create(out).expect("create");
     let mut w = BufWriter::new(f);
-    migrig::run_many(&mut w, geti(m, "count", 2u64), geti(m, "seed", 1u64), m.contains_key("directed"));
+    migrig::run_many(&mut w, geti(m, "count", 2u64), geti(m, "seed", 1u64), m.contains_key("directed"), m.contains_key("stale"));
     w.flush().ok();
     0
 }
